@@ -4,13 +4,19 @@ import fqlib, vlib
 def run(chk, replay=None):
     chk.rule = ("cases = behaviours replayed on the real fair queue: TLC -simulate walks of spec/GenFQ.tla (lock-granular "
                 "schedules incl. insert/wake/remove inside the unlocked window, cancel with a new waker), seeded starvation "
-                "scenarios (history, idle park, burst vs single message) and seeded random walks; distinct = distinct scripts; "
+                "scenarios (history, idle park, burst vs single message) and seeded random walks; socket-level bursts, and back-to-back recv calls under a simulated cooperative budget (k transport reads per task poll, refused reads woken only after the task yields; mechanism model-checked in Budget.tla); distinct = distinct scripts; "
                 "non-trivial = contains at least one receiver poll")
     chk.assumptions = ["TLC and CommunityModules are correct", "scripted sources wake exactly the waker they were last polled with",
                        "layer-A bypass bound is 4*(live peers+1); the mechanism's own bound n-1 is checked on the model (FairBoundTight)"]
     if replay:
         import json
-        sc = json.load(open(replay))["replay"]["script"]
+        rep = json.load(open(replay))["replay"]
+        sc = rep["script"]
+        if rep.get("kind") == "engine":
+            import dlvlib
+            v = dlvlib.run_scripts(chk, [sc], "replay")
+            dlvlib.report(chk, v, [sc], ("C06/",), "replay")
+            return
         viols, st = fqlib.replay_one(chk, sc)
         for scen, code, line in viols:
             if code.startswith("C06/") or code.startswith("panic"):
@@ -25,4 +31,19 @@ def run(chk, replay=None):
     chk.sample({"kind": "socket-level burst", "sock": bs[0]["sock"], "ops": [o["op"] for o in bs[0]["ops"][:8]], "len": len(bs[0]["ops"])})
     v = dlvlib.run_scripts(chk, bs, "c06-burst")
     dlvlib.report(chk, v, bs, ("C06/",), "socket-level burst")
+    for cfg, must, what in (("MC_Budget_ok1", True, "the repaired mechanism (yield after more than N deliveries in a row with a stream waiting, waiting streams asked again at the back in rotating order), 3 streams, budget 1 read per task poll, buffers up to 12: no stream with a message waits for more than 12 deliveries of the others"),
+                            ("MC_Budget_ok2", True, "the same, budget 2: bound 8"),
+                            ("MC_Budget_ok4", True, "the same, 4 streams, budget 1: bound 20"),
+                            ("MC_Budget_no_round_yield", False, "the code before fix ff5a291 (a call yields only when every stream answered Pending): a stream whose message needs a read waits for as long as the others have anything buffered"),
+                            ("MC_Budget_reask_fixed", False, "an intermediate repair (waiting streams asked again at the front in a fixed order): an idle stream ahead of the ready one uses up the budget every time"),
+                            ("MC_Budget_reach1", False, "reachability companion: a read is refused"),
+                            ("MC_Budget_reach2", False, "reachability companion: the call yields after a round")):
+        if cfg == "MC_Budget_ok4" and not thorough:
+            continue
+        r = vlib.tlc("Budget", cfg + ".cfg", chk.wd, timeout=900, coverage=must, workers=8)
+        (chk.model_must_hold if must else chk.model_must_fail)(r, "Budget " + what)
+    bg = dlvlib.budget_scripts(710000, budgets=(1, 2, 3, 5) if thorough else (1, 2, 3), backlog=(20, 40, 120) if thorough else (20, 40))
+    for s_ in bg: chk.case(("budget", s_["sock"], s_["tag"]))
+    v = dlvlib.run_scripts(chk, bg, "c06-budget")
+    dlvlib.report(chk, v, bg, ("C06/",), "cooperative budget")
     dlvlib.flood(chk, ("C06/",), nper=12 if thorough else 2, clients=6 if thorough else 4, msgs=300 if thorough else 60)
